@@ -63,10 +63,14 @@ type kase struct {
 	Flags   []int  `json:"flags"`          // per fired rule: index into flagMenu
 	Itr     int    `json:"itr,omitempty"`  // 0 = none, k = rule k carries deny,status:403
 	DetOnly bool   `json:"det_only,omitempty"`
-	Status  int    `json:"status,omitempty"` // 0 = no response phases
-	Parts   int    `json:"parts"`
-	Format  int    `json:"format"` // 0 Native, 1 JSON
-	Payload int    `json:"payload"`
+	// First / Second (DetectionOnly with two rules only): status of the would-be deny of rule Itr (default 403) and of
+	// a second would-be deny on rule Itr+1: the first one is the one the transaction remembers
+	First   int `json:"first,omitempty"`
+	Second  int `json:"second,omitempty"`
+	Status  int `json:"status,omitempty"` // 0 = no response phases
+	Parts   int `json:"parts"`
+	Format  int `json:"format"` // 0 Native, 1 JSON
+	Payload int `json:"payload"`
 }
 
 var modes = []string{"On", "Off", "RelevantOnly"}
@@ -151,6 +155,12 @@ func (k kase) conf() string {
 		dis := "pass"
 		if k.Itr == id {
 			dis = "deny,status:403"
+			if k.First != 0 {
+				dis = fmt.Sprintf("deny,status:%d", k.First)
+			}
+		}
+		if k.Second != 0 && k.Itr != 0 && id == k.Itr+1 {
+			dis = fmt.Sprintf("deny,status:%d", k.Second)
 		}
 		fmt.Fprintf(&sb, "SecRule REQUEST_HEADERS:X-In \"@rx ^a\" \"id:%d,phase:2,%s,%s,msg:'m%d %%{MATCHED_VAR}',logdata:'d%d %%{MATCHED_VAR}'\"\n",
 			id, flagMenu[f].text, dis, id, id)
@@ -214,6 +224,9 @@ func reference(k kase) expectation {
 	}
 	if k.Itr != 0 {
 		e.wouldBe = "403"
+		if k.First != 0 {
+			e.wouldBe = fmt.Sprint(k.First)
+		}
 	}
 	if interrupted {
 		e.status = "403" // the response the client gets
@@ -797,6 +810,8 @@ func forEachConfig(thorough bool, emit func(k kase)) {
 		flags   []int
 		itr     int
 		detOnly bool
+		first   int
+		second  int
 	}
 	var progs []prog
 	progs = append(progs, prog{})
@@ -807,13 +822,17 @@ func forEachConfig(thorough bool, emit func(k kase)) {
 	}
 	for f1 := range flagMenu {
 		one := []int{f1}
-		progs = append(progs, prog{one, 0, false}, prog{one, 1, false}, prog{one, 1, true})
+		progs = append(progs, prog{one, 0, false, 0, 0}, prog{one, 1, false, 0, 0}, prog{one, 1, true, 0, 0})
 		for _, f2 := range second {
 			two := []int{f1, f2}
 			// {two, 1, true}: a rule fires after the would-be interruption of DetectionOnly
-			progs = append(progs, prog{two, 0, false}, prog{two, 1, false}, prog{two, 2, true}, prog{two, 1, true})
+			progs = append(progs, prog{two, 0, false, 0, 0}, prog{two, 1, false, 0, 0}, prog{two, 2, true, 0, 0}, prog{two, 1, true, 0, 0})
+			if f2 == second[0] {
+				// two would-be interruptions in DetectionOnly whose statuses lie on both sides of the relevant patterns
+				progs = append(progs, prog{two, 1, true, 403, 302}, prog{two, 1, true, 302, 403})
+			}
 			if thorough {
-				progs = append(progs, prog{two, 2, false})
+				progs = append(progs, prog{two, 2, false, 0, 0})
 			}
 		}
 	}
@@ -822,7 +841,7 @@ func forEachConfig(thorough bool, emit func(k kase)) {
 			for _, pg := range progs {
 				for parts := range partsMenu {
 					for format := range formats {
-						emit(kase{Engine: en.engine, Src: en.src, Base: en.base, Rel: rel, Flags: pg.flags, Itr: pg.itr, DetOnly: pg.detOnly, Parts: parts, Format: format})
+						emit(kase{Engine: en.engine, Src: en.src, Base: en.base, Rel: rel, Flags: pg.flags, Itr: pg.itr, DetOnly: pg.detOnly, First: pg.first, Second: pg.second, Parts: parts, Format: format})
 					}
 				}
 			}
